@@ -227,6 +227,21 @@ def guards(ctx, f_init, f_solve):
     hit = [(n, gs) for n, gs in rs if gs and "seed_solution.device" in norm(gs[-1][0].test) and "!=" in norm(gs[-1][0].test)]
     ctx.ob("R19.3", "a seed solution from a different device is rejected", len(hit) == 1, detail=[norm(g[-1][0].test) for _, g in hit],
            where=f_solve.fq, construct="seed device guard", message="no seed-device inequality guard", consequence="a run resumes from a state on another mesh")
+    # the seed guard is only as strong as Device.__eq__: sequences of holes/terminals must not be compared by a truncating zip
+    feq = repo.func("tdgl.device.device", "Device.__eq__")
+    nested = [g for g in repo.module("tdgl.device.device").functions.values() if g.parent is feq]
+    trunc = []
+    for g in [feq] + nested:
+        src_g = norm(g.node)
+        for node in ast.walk(g.node):
+            if isinstance(node, ast.Call) and norm(node.func) == "zip" and not any(
+                    isinstance(c, ast.Compare) and all(isinstance(x, ast.Call) and norm(x.func) == "len" for x in [c.left] + c.comparators)
+                    for c in ast.walk(g.node)):
+                trunc.append(f"{g.qual} L{node.lineno}: {norm(node)[:70]}")
+    ctx.ob("R19.3", "Device equality (the seed-device guard) compares whole sequences of holes and terminals", not trunc, detail=trunc,
+           where=feq.fq, construct="Device.__eq__ sequence comparison", loc=loc(feq, feq.node),
+           message=f"Device.__eq__ compares holes/terminals with a truncating zip: {trunc}",
+           consequence="a seed solution computed on a device with an extra hole or terminal is accepted")
     # polygon / device definitions
     fp = repo.cls("tdgl.device.polygon", "Polygon").methods["points"]
     txts = [norm(gs[-1][0].test) for n, gs in raise_guards(fp) if gs]
